@@ -95,6 +95,17 @@ func (i *IterationDurations) Reset() {
 	i.min.Store(0)
 }
 
+// drain moves the accumulated values out of i, leaving it empty.
+func (i *IterationDurations) drain() *IterationDurations {
+	drained := &IterationDurations{}
+	drained.sum.Store(i.sum.Swap(0))
+	drained.count.Store(i.count.Swap(0))
+	drained.max.Store(i.max.Swap(0))
+	drained.min.Store(i.min.Swap(0))
+
+	return drained
+}
+
 type DurationStats struct {
 	running  IterationDurations
 	lifetime IterationDurations
@@ -106,12 +117,12 @@ func (d *DurationStats) Record(nanoseconds int64) {
 
 func (d *DurationStats) CollectLifetime() (IterationDurationsSnapshot, IterationDurationsSnapshot) {
 	verifhook.Yield("progress.collect.begin")
-	running := d.running.Snapshot()
+	// take the period values out atomically, so that iterations recorded while
+	// collecting are kept for the next period instead of being wiped
+	period := d.running.drain()
 	verifhook.Yield("progress.collect.read")
-	d.lifetime.Update(&d.running)
+	d.lifetime.Update(period)
 	verifhook.Yield("progress.collect.merge")
-	d.running.Reset()
-	verifhook.Yield("progress.collect.reset")
 
-	return running, d.lifetime.Snapshot()
+	return period.Snapshot(), d.lifetime.Snapshot()
 }
